@@ -1763,3 +1763,22 @@ func lemmaSliceConcat(seq Sequence, c int) Sequence {
 //@   ensures r <==> ((ff[i].Key == "source" && ff[j].Key != "source") ||
 //@      ((ff[i].Key == "source") == (ff[j].Key == "source") && locLess(ff[i].Loc, ff[j].Loc)))
 //@   assigns nothing
+
+// A resized locator: every region the inner locator returns is replaced by its Resize - whatever
+// its length.  rvalOf identifies a region by value (as valOf does for locations).
+//@ spec func rvalOf(r Region) int uninterpreted
+//@ spec func resizeId(v int, mod Modifier) int uninterpreted
+//@ func (r Region) Resize(mod Modifier) (out Region)
+//@   trusted interface contract: the result's value is a deterministic function of the receiver's value and the modifier; Segment.Resize and Regions.Resize (over segments) are proved to write nothing
+//@   requires !isnil(mod)
+//@   ensures !isnil(out) && rvalOf(out) == resizeId(rvalOf(r), mod)
+//@   assigns nothing
+//@ func resizeLocator$1(seq Sequence) (rr Regions)
+//@   prop C08 C15
+//@   requires !isnil(seq) && !isnil(mod)
+//@   ghost ORIG(k int) int
+//@   ensures each: forall k in 0..len(rr): rvalOf(rr[k]) == resizeId(ORIG(k), mod)
+//@   loop 1: ghost_init ORIG(k) := rvalOf(rr[k])
+//@   loop 1: invariant forall k in 0..i: rvalOf(rr[k]) == resizeId(ORIG(k), mod)
+//@   loop 1: invariant forall k in i..len(rr): rvalOf(rr[k]) == ORIG(k)
+//@   loop 1: decreases len(rr) - i
